@@ -45,6 +45,7 @@ FOREIGN = {
         (("rules.C19", "flag_decode_rules", "facts"), "names/comments are decoded by the flagged encoding"),
     ],
     "C04": [
+        (("rules.C03", "flagbits_rules", "facts"), "using_data_descriptor is bit 3 (streamed entries with a descriptor are refused, never mis-sized)"),
         (("rules.C10", "stack_rules", "facts"), "the streaming reader builds the same CRC-checked decoder stack"),
     ],
     "C07": [
@@ -59,6 +60,7 @@ FOREIGN = {
         (("rules.C02", "narrow_rules", "ctx"), "no value is truncated into a 16/32-bit field"),
     ],
     "C10": [
+        (("rules.C03", "flagbits_rules", "facts"), "both parsers read the same flag bits"),
         (RREF, "both readers refuse the same inputs: no refusal is added to one of them"),
         (("rules.C03", "fieldwriters_rules", "facts"), "both readers report what the headers hold"),
         (("rules.C04", "table_rules", "facts"), "contents are CRC-checked the same way"),
@@ -84,6 +86,8 @@ FOREIGN = {
         (("rules.C18", "bits_rules", "facts"), "the copied timestamp re-packs to the same words"),
     ],
     "C15": [
+        (("rules.C03", "flagbits_rules", "facts"), "the encrypted flag and the data-descriptor flag (which selects the ZipCrypto check byte) are bits 0 and 3"),
+        (TS, "an entry opened with keys gets the encrypting sink, and only that entry, for every call sequence"),
         (RREF, "the right password is refused nowhere new (entry length, method, flags ...)"),
         (OPENERS, "an entry opened with encryption keys is written encrypted, whichever opener is used"),
         (ENTRYF, "the encrypted flag is set exactly when keys were given"),
@@ -100,6 +104,7 @@ FOREIGN = {
         (("rules.C13", "raw_rules", "facts"), "append re-writes parsed entries untouched"),
     ],
     "C16": [
+        (("rules.C03", "flagbits_rules", "facts"), "the encrypted flag is bit 0"),
         (("rules.C15", "open_rules", "facts"), "no password => the password-required error for every encrypted entry, AES included"),
         (RREF, "the right password is refused nowhere new; tampering is refused everywhere it was"),
     ],
